@@ -24,6 +24,14 @@ CLAIMS = {
    text='Static analysis of structural necessary conditions of C01 only - the isomorphism with the cube-of-resolutions homology is NOT decided. Decided for every path: Tng and Cob (hash-map keys of the linear combinations that make up the differential) keep their sorted normal form: every mutation of the component vector reaches normalize() before the value escapes, literals only after sorting, fields private.',
    ref='DESIGN.md §3 E1; §4 C01',
    note='Trusted: Vec order-preserving method table; values received from outside are normalised (induction).'),
+ 'C11': dict(cat='other', tech='static analysis: guard live-range dataflow, call-graph reachability to rayon, dominance/must-pass-through on MIR',
+   text='Static analysis that holds for EVERY thread interleaving because it is a property of the code: the shared pivot table is written only inside the critical section that validated the choice (write() -> update_diff(&*guard) -> no-retry edge of should_retry() -> set(), one guard, never dropped in between; retry edge re-acquires and refreshes the snapshot first), no lock/cell is re-acquired while one of its guards can be alive, and no rayon entry is reachable while a thread-local RefCell borrow or the write guard is alive (work stealing would otherwise double-borrow or self-deadlock on some schedules). That the committed pivot set is acyclic for all inputs (completeness of the conflict test) is NOT decided, nor are pivot-condition values.',
+   ref='DESIGN.md §3 E5; §4 C11',
+   note='Trusted: MIR drop elaboration; over-approximating call graph (CHA, closures invocable where passed); only rayon spawns parallel work.'),
+ 'C12': dict(cat='other', tech='static analysis: guard live-range dataflow + call-graph reachability to rayon over MIR',
+   text='Static analysis of the concurrency structure of the sparse kernels, valid for one thread and many alike: the thread-local scratch vector of the triangular solver is never borrowed across a call that can reach rayon, and the union-find mutex of the block splitter is never re-locked while a guard on it is alive. The numerical clauses (A*X = Y, S = D - C A^-1 B, transfer-map identities, block decomposition, scratch returning to zero) are NOT decided.',
+   ref='DESIGN.md §3 E5; §4 C12',
+   note='Trusted: as C11.'),
 }
 
 NA = {
